@@ -382,6 +382,27 @@ func (g *Gen) indexExpr(d int) *Node {
 	return g.Expr(TInt, d)
 }
 
+// loopValueProbe: a loop whose body ends in a variable of the enclosing scope that is changed just before the loop is left.
+func (g *Gen) loopValueProbe() *Node {
+	xv, ff, lv := g.fresh("v"), g.fresh("f"), g.fresh("i")
+	t := []T{TInt, TStr, TArr}[g.R.IntN(3)]
+	change := Assign(xv, g.Expr(t, 1))
+	leave := &Node{K: KBreak}
+	var loop *Node
+	switch g.R.IntN(3) {
+	case 0:
+		loop = &Node{K: KFor, Op: "var", Name: lv, Kids: []*Node{Lit(int64(3))}}
+	case 1:
+		loop = &Node{K: KFor, Op: "list", Name: lv, Kids: []*Node{MkArr(Lit(int64(0)), Lit(int64(1)), Lit(int64(2)))}}
+	default:
+		loop = &Node{K: KFor, Op: "range", Name: lv, Kids: []*Node{Lit(int64(0)), Lit(int64(3))}}
+	}
+	loop.Body = []*Node{{K: KIf, Kids: []*Node{In("==", Id(lv), Lit(int64(2)))}, Body: []*Node{change, leave}}, Id(xv)}
+	def := &Node{K: KFunc, Name: ff, Body: []*Node{loop}}
+	g.declare(xv, t)
+	return &Node{K: KIf, Kids: []*Node{Lit(true)}, Body: []*Node{Assign(xv, g.Expr(t, 1)), def, Bi("println", Call(Id(ff)), Id(xv)), Assign(xv, g.Expr(t, 1)), Bi("println", loop, Id(xv))}}
+}
+
 // orderProbe builds one construct whose sub-expressions are each wrapped in a call of a function that prints a tag
 // and returns its argument, so the output shows the order (and number of times) in which they were evaluated.
 func (g *Gen) orderProbe() *Node {
@@ -478,7 +499,9 @@ func (g *Gen) callExpr(t T, d int) *Node {
 
 // Stmt generates one statement (and updates the scope model).
 func (g *Gen) Stmt(d int) *Node { //nolint:gocyclo,funlen // grammar
-	switch g.R.IntN(32) {
+	switch g.R.IntN(33) {
+	case 32: // the value of a loop is the value its last body evaluation had then, not a live view of a variable
+		return g.loopValueProbe()
 	case 31: // order of evaluation: every operand of a construct announces itself when it is evaluated
 		return g.orderProbe()
 	case 29: // arguments and elements are values at the time they are evaluated: a later one changes the variable
